@@ -11,7 +11,15 @@ pub fn run(rep: &mut Report) {
     rep.rule = "cell = (algorithm Opt/RevOpt, float type, set shape, sketch size m = ratio x |A∪B| with ratio from 1/100 to 1000); per trial fresh random items, A sketched through sketch_slice and B item-wise + end_sketch by the real code; statistics: fraction of equal positions in the float, u64 and u32 views, target J for each (staged z-test on the empirical trial variance; J in {0,1} exact). Distinct = cells; non-trivial: 0<J<1".into();
     // (a_only, b_only, both)
     let shapes: Vec<(&str, usize, usize, usize)> = vec![("third", 2, 2, 2), ("half", 1, 1, 2), ("j09", 1, 1, 18), ("j005", 10, 9, 1), ("disjoint", 3, 4, 0), ("identical", 0, 0, 5), ("nested", 0, 4, 2), ("singletons", 1, 0, 1)];
-    let ratios: Vec<(&str, f64)> = vec![("1/100", 0.01), ("1/10", 0.1), ("1", 1.), ("10", 10.), ("100", 100.), ("1000", 1000.)];
+    let mut ratios: Vec<(String, f64)> = [("1/100", 0.01), ("1/10", 0.1), ("1", 1.), ("10", 10.), ("100", 100.), ("1000", 1000.)].iter().map(|(n, r)| (n.to_string(), *r)).collect();
+    // seeded ratios between the decades (a fill-dependent branch with a threshold between two grid values would otherwise never run)
+    {
+        let mut r = rng_from(subseed(rep.seed, "C08/ratios", &[]));
+        for _ in 0..rep.tier.pick(2, 8) {
+            let x = (10f64.powf(r.random_range(-1.7..2.5)) * 100.).round() / 100.;
+            ratios.push((format!("{}", x), x));
+        }
+    }
     let kinds = [UKind::OptF32, UKind::OptF64, UKind::RevF32, UKind::RevF64];
     let t1: u64 = rep.tier.pick(4000, 50_000);
     let mut ci = 0u64;
